@@ -423,11 +423,22 @@ def calls(cfg):
         for s in S:
             for d in durings:
                 A.append(mk('Call', sid=s, ns=ns, ev='q', during=d,
-                            early=False))
+                            early=False, before=[]))
             # ... and the same arriving before call() has begun to wait
             for d in durings[1:4] + durings[6:8]:
                 A.append(mk('Call', sid=s, ns=ns, ev='q', during=d,
-                            early=True))
+                            early=True, before=[]))
+            # ... or while call() is still preparing (before the event went
+            # out: an ACK for an id not issued yet, a loss of the transport)
+            for t in T:
+                A.append(mk('Call', sid=s, ns=ns, ev='q', during=[],
+                            early=False, before=[ack(t, 1, ['v1'])]))
+                A.append(mk('Call', sid=s, ns=ns, ev='q',
+                            during=[ack(t, 1, ['v2'])], early=False,
+                            before=[ack(t, 1, ['v1'])]))
+                A.append(mk('Call', sid=s, ns=ns, ev='q',
+                            during=[ack(t, 1, ['v1'])], early=False,
+                            before=[lost(t)]))
             A.append(mk('Emit', ns=ns, toKind='one', to=[s], skipKind='none',
                         skip=[], ev='msg', data='v1', cb='c1'))
     for t in T:
